@@ -99,7 +99,18 @@ static void gen_field(Attr &a, Rng &r, uint32_t bit) {
     case G_SPEED: a.speed = boundary32(r); break;
     case G_HOSTNAME: a.hostname = rbytes(r, r.chance(0.3) ? (size_t)r.pickl({0, 1, 31, 32, 33, 40}) : r.below(41), true); a.hostname_ret_full = r.chance(0.3); break;
     case G_WIFIMODE: a.wifimode = (uint8_t)r.pickl({0, 1, 2, 0x7F, 0x80, 0xFF}); break;
-    case G_BSSID: for (auto &c : a.bssid) c = (uint8_t)r.next(); break;
+    case G_BSSID:
+        for (auto &c : a.bssid) c = (uint8_t)r.next();
+        if (r.chance(0.25)) { // not associated / broadcast / sparse addresses
+            switch (r.below(5)) {
+            case 0: memset(a.bssid, 0, 6); break;
+            case 1: memset(a.bssid, 0xFF, 6); break;
+            case 2: memset(a.bssid, 0, 6); a.bssid[5] = 1; break;
+            case 3: memset(a.bssid, 0, 6); a.bssid[0] = (uint8_t)r.next(); break;
+            default: memset(a.bssid, 0, 5); break;
+            }
+        }
+        break;
     case G_SSID: a.ssid = rbytes(r, r.chance(0.3) ? (size_t)r.pickl({0, 1, 31, 32, 33, 40}) : r.below(41), false); a.ssid_ret_full = r.chance(0.3); break;
     case G_RATE: a.rate = boundary16(r); break;
     case G_RSSI: a.rssi = (int8_t)(r.chance(0.3) ? r.pickl({-128, -127, -1, 0, 1, 127, -50}) : r.range(-128, 127)); break;
@@ -193,6 +204,7 @@ std::string plan_to_text(const Plan &p) {
       << "\nmemfill " << (int)p.memfill << "\nmemfill_seed " << p.memfill_seed << "\nlatency " << p.latency << "\ntail_ms " << p.tail_ms
       << "\napi_world " << (p.api_world ? 1 : 0) << "\ntwin " << (p.twin ? 1 : 0) << "\nauto_tick " << (p.auto_tick ? 1 : 0) << "\nisolate " << (p.isolate ? 1 : 0) << "\n";
     s << "expect_class " << (p.expect_class.empty() ? "-" : p.expect_class) << "\nexpect_hash " << p.expect_hash << "\n";
+    if (!p.abi.empty()) s << "abi " << p.abi << "\n";
     for (auto &n : p.nodes)
         s << "node glue=" << n.glue << " mtu=" << n.mtu << " attr_seed=" << n.attr_seed << " wifi=" << (n.wifi ? 1 : 0) << " failmask=" << n.failmask
           << " esp32=" << (n.side_esp32 ? 1 : 0) << " classifier=" << (n.side_classifier ? 1 : 0) << " rxfill=" << (int)n.rxfill
@@ -238,6 +250,7 @@ bool plan_from_text(const std::string &text, Plan &p, std::string &err) {
         else if (key == "isolate") { int v; ls >> v; p.isolate = v != 0; }
         else if (key == "expect_class") { ls >> p.expect_class; if (p.expect_class == "-") p.expect_class.clear(); }
         else if (key == "expect_hash") ls >> p.expect_hash;
+        else if (key == "abi") ls >> p.abi;
         else if (key == "node") {
             auto m = kvs(ls);
             NodeCfg n;
@@ -294,6 +307,8 @@ static Node *node_of_ctx(void *ctx) {
 static inline bool getter_fails(Node *n, uint32_t bit) {
     return ((n->attr.failmask | n->cfg.failmask | n->dyn_failmask | g_w->getfail_mask) & bit) != 0;
 }
+// how a port says "failed": the API only fixes 0 = success; ports return -1, an errno value, or some other non-zero code (per interface)
+static inline int fail_rc(const Node *n) { static const int RC[] = {-1, -1, -1, 1, 107, -22, 0x7FFFFFFF, (int)0x80000000}; return RC[(n->cfg.attr_seed >> 7) % 8]; }
 static inline void note_getfail(uint32_t bit) {
     if (g_w->getfail_mask & bit) { g_w->st.fault_fired[F_GETFAIL]++; if (g_w->curd) g_w->curd->get_fault_fired = true; }
 }
@@ -452,7 +467,7 @@ size_t lltd_port_get_hw_id(void *dst, size_t dst_len) {
 int lltd_port_get_mac_address(void *ctx, ethernet_address_t *out) {
     Node *n = node_of_ctx(ctx);
     if (!n || !out) return -1;
-    if (getter_fails(n, G_MAC)) { note_getfail(G_MAC); return -1; }
+    if (getter_fails(n, G_MAC)) { note_getfail(G_MAC); return fail_rc(n); }
     memcpy(out, n->attr.mac.a, 6);
     return 0;
 }
@@ -460,13 +475,13 @@ uint32_t lltd_port_get_characteristics_flags(void *ctx) { Node *n = node_of_ctx(
 int lltd_port_get_if_type(void *ctx, uint32_t *out) {
     Node *n = node_of_ctx(ctx);
     if (!n || !out) return -1;
-    if (getter_fails(n, G_IFTYPE)) { note_getfail(G_IFTYPE); return -1; }
+    if (getter_fails(n, G_IFTYPE)) { note_getfail(G_IFTYPE); return fail_rc(n); }
     *out = n->attr.iftype; return 0;
 }
 int lltd_port_get_ipv4_address(void *ctx, uint32_t *out) {
     Node *n = node_of_ctx(ctx);
     if (!n || !out) return -1;
-    if (getter_fails(n, G_IPV4)) { note_getfail(G_IPV4); return -1; }
+    if (getter_fails(n, G_IPV4)) { note_getfail(G_IPV4); return fail_rc(n); }
     // stored as the four wire bytes, most significant first
     uint8_t b[4] = {(uint8_t)(n->attr.ipv4 >> 24), (uint8_t)(n->attr.ipv4 >> 16), (uint8_t)(n->attr.ipv4 >> 8), (uint8_t)n->attr.ipv4};
     memcpy(out, b, 4); return 0;
@@ -474,25 +489,25 @@ int lltd_port_get_ipv4_address(void *ctx, uint32_t *out) {
 int lltd_port_get_ipv6_address(void *ctx, uint8_t out[16]) {
     Node *n = node_of_ctx(ctx);
     if (!n || !out) return -1;
-    if (getter_fails(n, G_IPV6)) { note_getfail(G_IPV6); return -1; }
+    if (getter_fails(n, G_IPV6)) { note_getfail(G_IPV6); return fail_rc(n); }
     memcpy(out, n->attr.ipv6, 16); return 0;
 }
 int lltd_port_get_link_speed_100bps(void *ctx, uint32_t *out) {
     Node *n = node_of_ctx(ctx);
     if (!n || !out) return -1;
-    if (getter_fails(n, G_SPEED)) { note_getfail(G_SPEED); return -1; }
+    if (getter_fails(n, G_SPEED)) { note_getfail(G_SPEED); return fail_rc(n); }
     *out = n->attr.speed; return 0;
 }
 int lltd_port_get_wifi_mode(void *ctx, uint8_t *out) {
     Node *n = node_of_ctx(ctx);
     if (!n || !out || !n->attr.wifi) return -1;
-    if (getter_fails(n, G_WIFIMODE)) { note_getfail(G_WIFIMODE); return -1; }
+    if (getter_fails(n, G_WIFIMODE)) { note_getfail(G_WIFIMODE); return fail_rc(n); }
     *out = n->attr.wifimode; return 0;
 }
 int lltd_port_get_bssid(void *ctx, uint8_t out[6]) {
     Node *n = node_of_ctx(ctx);
     if (!n || !out || !n->attr.wifi) return -1;
-    if (getter_fails(n, G_BSSID)) { note_getfail(G_BSSID); return -1; }
+    if (getter_fails(n, G_BSSID)) { note_getfail(G_BSSID); return fail_rc(n); }
     memcpy(out, n->attr.bssid, 6); return 0;
 }
 size_t lltd_port_get_ssid(void *ctx, void *dst, size_t dst_len) {
@@ -506,19 +521,19 @@ size_t lltd_port_get_ssid(void *ctx, void *dst, size_t dst_len) {
 int lltd_port_get_wifi_max_rate_0_5mbps(void *ctx, uint16_t *out) {
     Node *n = node_of_ctx(ctx);
     if (!n || !out || !n->attr.wifi) return -1;
-    if (getter_fails(n, G_RATE)) { note_getfail(G_RATE); return -1; }
+    if (getter_fails(n, G_RATE)) { note_getfail(G_RATE); return fail_rc(n); }
     *out = n->attr.rate; return 0;
 }
 int lltd_port_get_wifi_rssi_dbm(void *ctx, int8_t *out) {
     Node *n = node_of_ctx(ctx);
     if (!n || !out || !n->attr.wifi) return -1;
-    if (getter_fails(n, G_RSSI)) { note_getfail(G_RSSI); return -1; }
+    if (getter_fails(n, G_RSSI)) { note_getfail(G_RSSI); return fail_rc(n); }
     *out = n->attr.rssi; return 0;
 }
 int lltd_port_get_wifi_phy_medium(void *ctx, uint32_t *out) {
     Node *n = node_of_ctx(ctx);
     if (!n || !out || !n->attr.wifi) return -1;
-    if (getter_fails(n, G_PHY)) { note_getfail(G_PHY); return -1; }
+    if (getter_fails(n, G_PHY)) { note_getfail(G_PHY); return fail_rc(n); }
     *out = n->attr.phy; return 0;
 }
 static char g_logbuf[2048];
@@ -918,20 +933,42 @@ void World::after_reset_twin(int node) {
 }
 
 void World::pump(uint64_t until) {
+    // A busy node's arrivals wait in its socket buffer (Node::pending) and one wake-up event per node stands in for them in the
+    // queue - same order and times as re-queuing every waiting frame at busy_until, without the quadratic cost of doing so.
+    auto set_wake = [&](Node &n, int node) {
+        if (n.pending.empty()) { n.wake_set = false; return; }
+        uint64_t wt = std::max(now, n.busy_until), ws = n.pending.begin()->first;
+        if (n.wake_set && n.wake_t == wt && n.wake_seq == ws) return;
+        n.wake_set = true; n.wake_t = wt; n.wake_seq = ws;
+        Event w; w.t = wt; w.seq = ws; w.type = 3; w.node = node; w.gen = 0; w.op_index = -1;
+        q.push(w);
+    };
     while (!q.empty() && q.top().t <= until && !stop) {
         Event e = q.top();
         q.pop();
         if (e.t > now) now = e.t;
         st.events++;
+        if (e.type == 3) { // wake-up: the node may be back in recvfrom
+            Node &n = *nodes[e.node];
+            if (!n.wake_set || e.t != n.wake_t || e.seq != n.wake_seq) continue; // superseded
+            n.wake_set = false;
+            if (n.pending.empty()) continue;
+            if (n.busy_until > now) { set_wake(n, e.node); continue; }
+            Event w = *n.pending.begin()->second;
+            n.pending.erase(n.pending.begin());
+            w.t = now;
+            e = w; // handled below exactly like an event popped at this instant
+            set_wake(n, e.node);
+        }
         if (e.type == 0) {
             Node &n = *nodes[e.node];
-            if (n.busy_until > now) { e.t = n.busy_until; q.push(e); continue; } // socket buffer: wait until the thread is back in recvfrom
+            if (n.busy_until > now) { n.pending[e.seq] = std::make_shared<Event>(e); set_wake(n, e.node); continue; } // socket buffer: wait until the thread is back in recvfrom
             const Op *op = (e.op_index >= 0 && e.op_index < (int)plan.ops.size()) ? &plan.ops[e.op_index] : nullptr;
             handle_delivery(e.node, *e.frame, e.op_index, op, 0);
         } else if (e.type == 1) {
             Node &n = *nodes[e.node];
             if (e.gen != n.tick_gen) continue;
-            if (n.busy_until > now) { e.t = n.busy_until; q.push(e); continue; }
+            if (n.busy_until > now) { n.pending[e.seq] = std::make_shared<Event>(e); set_wake(n, e.node); continue; }
             do_tick(e.node);
             schedule_tick(e.node);
         } else if (e.fn) e.fn();
@@ -1113,6 +1150,18 @@ void World::exec_op(int i) {
                 if (nodes[op.a[0]]->glue) glue_set_mac(nodes[op.a[0]]->glue, m.a); // the daemon's copy of the address follows the interface
                 if (nodes[op.a[0]]->twin >= 0 && nodes[nodes[op.a[0]]->twin]->glue) glue_set_mac(nodes[nodes[op.a[0]]->twin]->glue, m.a);
                 note("mac_change");
+            }
+            if ((op.a[2] & 0x40000) && op.a[3] >= 64 && op.a[3] <= 65536) { // the link's MTU changes in place (same context): the daemon re-sizes its receive buffer
+                for (int which = 0; which < 2; which++) {
+                    int idx = which == 0 ? (int)op.a[0] : nodes[op.a[0]]->twin;
+                    if (idx < 0) continue;
+                    Node &x = *nodes[(size_t)idx];
+                    x.cfg.mtu = (uint32_t)op.a[3];
+                    free(x.rxbuf);
+                    x.rxbuf = (uint8_t *)malloc(x.cfg.mtu);
+                    memset(x.rxbuf, x.cfg.rxfill, x.cfg.mtu);
+                }
+                note("mtu_change");
             }
             if (nodes[op.a[0]]->twin >= 0) nodes[nodes[op.a[0]]->twin]->attr = nodes[op.a[0]]->attr; // the twin is the same interface
             note("attr_change");
